@@ -9,14 +9,27 @@ import (
 	"flag"
 	"fmt"
 	"math/rand"
+	"net/http"
+	"net/http/httptest"
+	"os"
 	"sync"
+	"sync/atomic"
 	"time"
 
 	circuit "github.com/cep21/circuit/v4"
 	"github.com/cep21/circuit/v4/closers/hystrix"
+	"github.com/cep21/circuit/v4/metriceventstream"
 	"github.com/cep21/circuit/v4/metrics/responsetimeslo"
 	"github.com/cep21/circuit/v4/metrics/rolling"
 )
+
+// discardFlusher is an http.ResponseWriter + http.Flusher that throws the stream away.
+type discardFlusher struct{ h http.Header }
+
+func (d *discardFlusher) Header() http.Header         { return d.h }
+func (d *discardFlusher) Write(b []byte) (int, error) { return len(b), nil }
+func (d *discardFlusher) WriteHeader(int)             {}
+func (d *discardFlusher) Flush()                      {}
 
 func main() {
 	dur := flag.Duration("dur", 1500*time.Millisecond, "")
@@ -29,6 +42,18 @@ func main() {
 	c := m.MustCreateCircuit("c", circuit.Config{Execution: circuit.ExecutionConfig{Timeout: 2 * time.Millisecond, IsErrInterrupt: func(error) bool { return true }}})
 	stop := time.Now().Add(*dur)
 	var wg sync.WaitGroup
+	var libPanics atomic.Int64
+	full := c.Config() // the complete configuration (time keeper, factories, collectors), to alternate with partial ones
+	// the metrics event stream with one listener: its collector loop runs on a goroutine of the LIBRARY (a panic
+	// there takes the process down) and snapshots the circuits every tick while they are being reconfigured
+	es := &metriceventstream.MetricEventStream{Manager: m, TickDuration: 200 * time.Microsecond}
+	go func() { _ = es.Start() }()
+	lctx, lcancel := context.WithCancel(context.Background())
+	ldone := make(chan struct{})
+	go func() {
+		defer close(ldone)
+		es.ServeHTTP(&discardFlusher{h: http.Header{}}, httptest.NewRequest(http.MethodGet, "/hystrix.stream", nil).WithContext(lctx))
+	}()
 	worker := func(id int, f func(r *rand.Rand)) {
 		wg.Add(1)
 		go func() {
@@ -36,7 +61,14 @@ func main() {
 			r := rand.New(rand.NewSource(*seed*100 + int64(id)))
 			for time.Now().Before(stop) {
 				func() {
-					defer func() { _ = recover() }()
+					defer func() {
+						// the only panic a worker may see is the one its own run function raises ("p")
+						if p := recover(); p != nil && p != "p" {
+							if libPanics.Add(1) == 1 {
+								fmt.Printf("library panic on worker %d: %v\n", id, p)
+							}
+						}
+					}()
 					f(r)
 				}()
 			}
@@ -79,7 +111,7 @@ func main() {
 		worker(i, traffic)
 	}
 	worker(10, func(r *rand.Rand) { // live reconfiguration of the circuit, full and partial configs
-		cfg := c.Config()
+		cfg := full
 		if r.Intn(2) == 0 {
 			cfg = circuit.Config{}
 			verdict := r.Intn(2) == 0
@@ -129,5 +161,12 @@ func main() {
 		_ = m.AllCircuits()
 	})
 	wg.Wait()
+	lcancel()
+	<-ldone
+	_ = es.Close()
+	if n := libPanics.Load(); n > 0 {
+		fmt.Printf("racerun: %d library panics were recovered by the workers\n", n)
+		os.Exit(3)
+	}
 	fmt.Println("racerun finished without a race report")
 }
